@@ -29,11 +29,10 @@ pub struct Att {
     pub nfds: usize,
     pub fds: [c_int; MAXF],
     pub ctl_ok: bool, // control message well-formed (level, type, lengths)
-    pub pay: [u8; PAY], // the first bytes of the payload (where the ipc layer writes attachment indices)
     pub ok: bool,
 }
 pub const A0: Att =
-    Att { fd: -1, hdr: 0, has_hdr: false, base: 0, len: 0, nfds: 0, fds: [-1; MAXF], ctl_ok: true, pay: [0; PAY], ok: false };
+    Att { fd: -1, hdr: 0, has_hdr: false, base: 0, len: 0, nfds: 0, fds: [-1; MAXF], ctl_ok: true, ok: false };
 
 pub struct Rec {
     pub att: [Att; MAXA],
@@ -48,6 +47,8 @@ pub struct Rec {
     pub no_cloexec: bool,
     pub fail_fd_at: i32,
     pub fd_creates: i32,
+    pub nshm: usize,
+    pub nmapped: usize,
 }
 pub static mut R: Rec = Rec {
     att: [A0; MAXA],
@@ -62,14 +63,17 @@ pub static mut R: Rec = Rec {
     no_cloexec: false,
     fail_fd_at: -1,
     fd_creates: 0,
+    nshm: 0,
+    nmapped: 0,
 };
 static mut ERRNO: c_int = 0;
 /// copy the first PAY payload bytes into the attempt record (off for the plan harnesses, whose
 /// buffers are never initialised)
 pub static mut SNAPSHOT_PAYLOAD: bool = false;
+/// the first bytes of each attempt's payload (where the ipc layer writes attachment indices)
+pub static mut PAYS: [[u8; PAY]; MAXA] = [[0; PAY]; MAXA];
 static mut SHMBUF: [[u8; 16]; 4] = [[0; 16]; 4];
-static mut NSHM: usize = 0;
-static mut NMAPPED: usize = 0;
+
 
 #[no_mangle]
 pub unsafe extern "C" fn __errno_location() -> *mut c_int {
@@ -136,7 +140,9 @@ unsafe fn attempt(a: Att) -> ssize_t {
     R.att[i].ok = !fail;
     if SNAPSHOT_PAYLOAD && a.len > 0 {
         let n = if a.len < PAY { a.len } else { PAY };
-        ptr::copy_nonoverlapping(a.base as *const u8, R.att[i].pay.as_mut_ptr(), n);
+        // (into its own object: CBMC models a memcpy into a member of a large struct as an update
+        // of the whole struct, which was seen to clobber unrelated fields)
+        ptr::copy_nonoverlapping(a.base as *const u8, PAYS[i].as_mut_ptr(), n);
     }
     if fail {
         ERRNO = libc::ENOBUFS;
@@ -201,15 +207,15 @@ pub unsafe extern "C" fn ftruncate(_fd: c_int, len: off_t) -> c_int {
 // mappings of one object — the recording kernel is not used to read regions back)
 #[no_mangle]
 pub unsafe extern "C" fn mmap(_a: *mut c_void, len: size_t, _p: c_int, _f: c_int, _fd: c_int, _o: off_t) -> *mut c_void {
-    kani::assume(NSHM < 4 && len <= 16);
-    let p = SHMBUF[NSHM].as_mut_ptr();
-    NSHM += 1;
-    NMAPPED += 1;
+    kani::assume(R.nshm < 4 && len <= 16);
+    let p = SHMBUF[R.nshm].as_mut_ptr();
+    R.nshm += 1;
+    R.nmapped += 1;
     p as *mut c_void
 }
 #[no_mangle]
 pub unsafe extern "C" fn munmap(_a: *mut c_void, _len: size_t) -> c_int {
-    NMAPPED -= 1;
+    R.nmapped -= 1;
     0
 }
 #[no_mangle]
@@ -223,6 +229,14 @@ pub unsafe extern "C" fn clock_gettime(_c: c_int, ts: *mut libc::timespec) -> c_
     0
 }
 #[no_mangle]
+pub unsafe extern "C" fn fcntl(fd: c_int, cmd: c_int, _arg: c_int) -> c_int {
+    assert!(cmd == libc::F_DUPFD_CLOEXEC || cmd == libc::F_DUPFD); // the only commands the sending side uses
+    if fd_create_fails() {
+        return -1;
+    }
+    new_fd(cmd == libc::F_DUPFD_CLOEXEC)
+}
+#[no_mangle]
 pub unsafe extern "C" fn dup(fd: c_int) -> c_int {
     if fd_create_fails() {
         return -1;
@@ -230,7 +244,57 @@ pub unsafe extern "C" fn dup(fd: c_int) -> c_int {
     new_fd(false)
 }
 
+
+// ------------------------------------------------------------------------------------------------
+// Traps.  Under -Z c-ffi a foreign function without a definition is NOT rejected: CBMC silently
+// gives it a nondeterministic result (seen with fcntl).  Every system call the crate could make
+// and this kernel does not model is therefore defined here as a failing assertion; the runner maps
+// an "UNMODELLED" failure to "inconclusive".
+macro_rules! trap {
+    ($($name:ident ( $($t:ty),* ) -> $r:ty = $v:expr;)*) => {
+        $(
+            #[no_mangle]
+            pub unsafe extern "C" fn $name($(_: $t),*) -> $r {
+                assert!(false, concat!("UNMODELLED libc call: ", stringify!($name)));
+                $v
+            }
+        )*
+        pub fn link_traps() {
+            $( core::hint::black_box($name as unsafe extern "C" fn($($t),*) -> $r); )*
+        }
+    };
+}
+trap! {
+    bind(c_int, *const libc::sockaddr, socklen_t) -> c_int = -1;
+    listen(c_int, c_int) -> c_int = -1;
+    accept(c_int, *mut libc::sockaddr, *mut socklen_t) -> c_int = -1;
+    accept4(c_int, *mut libc::sockaddr, *mut socklen_t, c_int) -> c_int = -1;
+    sendto(c_int, *const c_void, size_t, c_int, *const libc::sockaddr, socklen_t) -> ssize_t = -1;
+    recvfrom(c_int, *mut c_void, size_t, c_int, *mut libc::sockaddr, *mut socklen_t) -> ssize_t = -1;
+    dup2(c_int, c_int) -> c_int = -1;
+    dup3(c_int, c_int, c_int) -> c_int = -1;
+    pipe(*mut c_int) -> c_int = -1;
+    pipe2(*mut c_int, c_int) -> c_int = -1;
+    eventfd(libc::c_uint, c_int) -> c_int = -1;
+    shutdown(c_int, c_int) -> c_int = -1;
+    memfd_create(*const c_char, libc::c_uint) -> c_int = -1;
+    unlink(*const c_char) -> c_int = -1;
+    rmdir(*const c_char) -> c_int = -1;
+    mkdir(*const c_char, mode_t) -> c_int = -1;
+    recvmsg(c_int, *mut msghdr, c_int) -> ssize_t = -1;
+    recv(c_int, *mut c_void, size_t, c_int) -> ssize_t = -1;
+    poll(*mut libc::pollfd, libc::nfds_t, c_int) -> c_int = -1;
+    fstat(c_int, *mut libc::stat) -> c_int = -1;
+    socket(c_int, c_int, c_int) -> c_int = -1;
+    connect(c_int, *const libc::sockaddr, socklen_t) -> c_int = -1;
+    setsockopt(c_int, c_int, c_int, *const c_void, socklen_t) -> c_int = -1;
+    epoll_create1(c_int) -> c_int = -1;
+    epoll_ctl(c_int, c_int, c_int, *mut libc::epoll_event) -> c_int = -1;
+    epoll_wait(c_int, *mut libc::epoll_event, c_int, c_int) -> c_int = -1;
+}
+
 pub fn link() {
+    link_traps();
     use core::hint::black_box as bb;
     bb(__errno_location as unsafe extern "C" fn() -> *mut c_int);
     bb(socketpair as unsafe extern "C" fn(c_int, c_int, c_int, *mut c_int) -> c_int);
@@ -244,6 +308,7 @@ pub fn link() {
     bb(getpid as unsafe extern "C" fn() -> c_int);
     bb(clock_gettime as unsafe extern "C" fn(c_int, *mut libc::timespec) -> c_int);
     bb(dup as unsafe extern "C" fn(c_int) -> c_int);
+    bb(fcntl as unsafe extern "C" fn(c_int, c_int, c_int) -> c_int);
     bb(mmap as unsafe extern "C" fn(*mut c_void, size_t, c_int, c_int, c_int, off_t) -> *mut c_void);
     bb(munmap as unsafe extern "C" fn(*mut c_void, size_t) -> c_int);
 }
@@ -271,6 +336,9 @@ pub fn att_count() -> usize {
 pub fn att(i: usize) -> Att {
     unsafe { R.att[i] }
 }
+pub fn att_pay(i: usize) -> [u8; PAY] {
+    unsafe { PAYS[i] }
+}
 /// the other end of the socket pair `fd` was created in (-1 if it was not created by socketpair)
 pub fn pair_of(fd: c_int) -> c_int {
     unsafe {
@@ -295,7 +363,7 @@ pub fn nopen() -> usize {
     unsafe { R.nopen }
 }
 pub fn nmapped() -> usize {
-    unsafe { NMAPPED }
+    unsafe { R.nmapped }
 }
 pub fn set_snapshot_payload(b: bool) {
     unsafe { SNAPSHOT_PAYLOAD = b }
